@@ -103,6 +103,10 @@ enum Op1 {
     DiscardAll,
     SerDeSame,
     SerDeFresh,
+    /// keep the current serialisation in a slot (taken under the tags enabled at that moment)
+    Save,
+    /// load the slot (if it holds anything) into the engine as it is now: its current tags stay
+    Load,
 }
 
 const S1_URLS: &[(&str, &str)] = &[
@@ -118,7 +122,7 @@ fn s1_ops() -> Vec<Op1> {
     vec![
         Op1::Check(0), Op1::Check(1), Op1::Check(2), Op1::Check(3), Op1::Check(4), Op1::Check(5), Op1::Csp, Op1::Cosmetic,
         Op1::Use(0), Op1::Use(1), Op1::Use(2), Op1::Use(3), Op1::EnableA, Op1::DisableA,
-        Op1::AlwaysDiscard, Op1::NeverDiscard, Op1::DiscardAll, Op1::SerDeSame, Op1::SerDeFresh,
+        Op1::AlwaysDiscard, Op1::NeverDiscard, Op1::DiscardAll, Op1::SerDeSame, Op1::SerDeFresh, Op1::Save, Op1::Load,
     ]
 }
 
@@ -176,6 +180,7 @@ fn s1_prepare() -> S1 {
 fn s1_run(s: &S1, seq: &[usize], l: &mut Local) -> Option<(usize, String, String)> {
     let mut e = s1_engine();
     let mut mask = 0u8;
+    let mut slot: Option<Vec<u8>> = None;
     for (step, &oi) in seq.iter().enumerate() {
         let o = s.ops[oi];
         l.transitions += 1;
@@ -208,6 +213,12 @@ fn s1_run(s: &S1, seq: &[usize], l: &mut Local) -> Option<(usize, String, String
             Op1::SerDeSame => {
                 let b = e.serialize_raw().unwrap();
                 e.deserialize(&b).unwrap();
+            }
+            Op1::Save => slot = Some(e.serialize_raw().unwrap()),
+            Op1::Load => {
+                if let Some(b) = &slot {
+                    e.deserialize(b).unwrap();
+                }
             }
             Op1::SerDeFresh => {
                 let b = e.serialize_raw().unwrap();
@@ -660,10 +671,16 @@ fn check(ctx: &Ctx) -> i32 {
         let want = [Check(0), Check(1), Check(4), Use(0), Use(1), Use(2), EnableA, DisableA, DiscardAll, AlwaysDiscard, SerDeSame];
         (0..p.s1.ops.len()).filter(|&i| want.contains(&p.s1.ops[i])).collect()
     };
+    let s1_saveload: Vec<usize> = {
+        use Op1::*;
+        let want = [Check(0), Check(1), Check(2), Use(0), Use(1), Use(2), Use(3), EnableA, DisableA, Save, Load];
+        (0..p.s1.ops.len()).filter(|&i| want.contains(&p.s1.ops[i])).collect()
+    };
     let all = |n: usize| -> Vec<usize> { (0..n).collect() };
     let sweeps: Vec<(usize, &str, Vec<usize>, usize)> = vec![
         (1, "all operations", all(p.s1.ops.len()), depths[0] - 1),
         (1, "core operations", s1_core, depths[0]),
+        (1, "tag switches around save / load", s1_saveload, depths[0]),
         (2, "all operations", all(p.s2.ops.len()), depths[1]),
         (3, "all operations", all(p.s3.ops.len()), depths[2]),
         (4, "all operations", all(p.s2.ops.len()), depths[1]),
